@@ -230,7 +230,12 @@ def tilt_case(draw, tier="quick"):
         # tilt, no tilt element before the aperture, aperture on the pupil)
         ramp_repr = draw(st.sampled_from(["opd", "none"]))
         wf_tilt, carrier = None, False
-        extras = [e for e in extras if not e["kind"].endswith("before")]
+        segmented = segmented or k >= 2          # one field per segment reaches the mirror
+        # ... and the image stays inside the output window (displacements of a pixel or two, no further elements):
+        # a field that has left the window is compared with nothing
+        extras = []
+        px = lambda axis: draw(gen.finite(-1.5, 1.5)) * du[axis] / (z * os_)  # noqa: E731
+        steer = {"x": px(0), "y": px(1), "a": px(0), "b": px(1)}
     return {"steer": steer, "shape": list(shape), "amp": amp, "opd": opd, "labels": labels, "segmented": segmented,
             "dx": draw(cm.scalar_or_pair(samp["dx"])), "du": list(du), "z": z, "wavelength": wl, "oversample": os_,
             "out_shape": out_shape, "prop_shape": prop_shape, "seg_angles": seg_angles, "ramp_repr": ramp_repr,
@@ -359,8 +364,8 @@ def propagate(case, ctx):
         w_mid = w * pupil
         w = w_mid
         if steer is not None:
-            ctx.tag("steering_mirror", "steering_mirror:multi_field" if k >= 2 else None,
-                    "steering_mirror:untilted_fields" if k >= 2 and all(not f.tilt for f in w.data) else None)
+            ctx.tag("steering_mirror", "steering_mirror:multi_field" if len(w.data) >= 2 else None,
+                    "steering_mirror:untilted_fields" if len(w.data) >= 2 and all(not f.tilt for f in w.data) else None)
             mirror = lentil.Tilt(x=steer["x"], y=steer["y"], amplitude=np.ones(shape), opd=ramp(shape, dx, steer["a"], steer["b"]),
                                  pixelscale=cm.as_ps(case["dx"])).fit_tilt(inplace=False)
             w = w * mirror
